@@ -103,29 +103,68 @@ def r_identity(ctx):
 
 
 def r_firstwins(ctx):
+    import absint
+    from absint import Interp, MutList, Return, Unknown
     rid = "C20.firstwins"
-    ctx.rule(rid, "ParentVisitor::insert sets a child's parent only when it has none (first registration wins), always records the child, and "
-                  "returns Ok; ArenaTree::node returns the existing index for an equal value", floor=2)
+    ctx.rule(rid, "ParentVisitor::insert(parent, child): a child without a parent gets `parent`, a child that already has one keeps it (first "
+                  "registration wins), the child is appended to the parent's children, and the result is Ok; ArenaTree::node returns the index "
+                  "of the first equal value and otherwise appends a new node whose index is its position (abstract evaluation on small arenas)",
+             floor=5)
     f = ctx.facts
-    ins = [fi for fi in f.fns(PAR) if fi.impl_self == "ParentVisitor" and fi.name == "insert"]
-    if not ins:
-        raise vf.Incomplete("ParentVisitor::insert not found")
-    fi = ins[0]
-    guarded = False
-    for n in vf.find(fi.node, "if"):
-        if "parent.is_none()" in vf.src(n["c"]) and any(x["k"] == "assign" and ".parent" in vf.src(x["a"]) for x in vf.walk(n["t"])):
-            guarded = True
-    unguarded = [x for x in vf.walk(fi.node) if x["k"] == "assign" and ".parent" in vf.src(x["a"])]
-    errs = [x for x in vf.walk(fi.node) if x["k"] == "call" and vf.src(x["f"]) == "Err"]
-    ctx.site(rid, "insert", PAR, fi.line, {"guarded_by_is_none": guarded, "assignments": len(unguarded), "err_returns": len(errs)})
-    if not guarded or len(unguarded) != 1:
-        ctx.violation(rid, "insert|overwrite", PAR, fi.line, "insert assigns a parent outside the `parent.is_none()` guard: a later registration overwrites the syntactic parent")
-    if errs:
-        ctx.violation(rid, "insert|err", PAR, fi.line, "insert can return Err: building the index can fail")
-    nd = [fi2 for fi2 in f.fns(PAR) if fi2.impl_self == "ArenaTree" and fi2.name == "node"]
-    if not nd:
-        raise vf.Incomplete("ArenaTree::node not found")
-    ctx.site(rid, "node", PAR, nd[0].line, None)
+    ins = [fi for fi in f.fns(PAR) if fi.impl_self == "ParentVisitor" and fi.name == "insert" and not fi.in_test]
+    nd = [fi for fi in f.fns(PAR) if fi.impl_self == "ArenaTree" and fi.name == "node" and not fi.in_test]
+    if not ins or not nd:
+        raise vf.Incomplete("ParentVisitor::insert / ArenaTree::node not found")
+    methods = {(fi.impl_self, fi.name): fi for fi in f.fns(PAR) if fi.impl_self and not fi.in_test}
+
+    def mknode(idx, val, parent):
+        return ("enum", "Node", {"idx": idx, "val": val, "parent": parent, "children": MutList()})
+
+    def on_call(kind, name, node, args, recv):
+        if kind == "fn" and name and name.endswith("Node::new") and ("Node", "new") in methods:
+            return mknode(args[0], args[1], ("None",))
+        return NotImplemented
+    for label, before in (("child has no parent", ("None",)), ("child already has parent 2", ("Some", 2))):
+        arena = MutList([mknode(0, ("str", "root"), ("None",)), mknode(1, ("str", "child"), before), mknode(2, ("str", "other"), ("None",))])
+        selfo = ("enum", "ParentVisitor", {"arena_tree": ("enum", "ArenaTree", {"arena": arena})})
+        it = Interp(env={"self": selfo, "parent": 0, "child": 1}, on_call=on_call)
+        try:
+            try:
+                res = it.block(ins[0].node["body"])
+            except Return as r:
+                res = r.v
+        except Unknown as e:
+            ctx.incomplete_msg(rid, "insert, %s: %s" % (label, e))
+            continue
+        after = arena[1][2]["parent"]
+        kids = list(arena[0][2]["children"])
+        want = ("Some", 0) if before == ("None",) else before
+        ctx.site(rid, "insert|" + label, PAR, ins[0].line, {"parent_after": repr(after), "children_of_parent": kids, "result": repr(res)[:30]})
+        if after != want:
+            ctx.violation(rid, "insert|overwrite" if before != ("None",) else "insert|unset", PAR, ins[0].line,
+                          "insert(0, 1) when the %s: its parent becomes %r, expected %r" % (label, after, want))
+        if kids != [1]:
+            ctx.violation(rid, "insert|children", PAR, ins[0].line, "insert(0, 1): the parent's children are %r, expected [1]" % (kids,))
+        if not (isinstance(res, tuple) and res[0] == "Ok"):
+            ctx.violation(rid, "insert|err", PAR, ins[0].line, "insert returns %r: building the index can fail" % (res,))
+    for label, val, want_idx, want_len in (("value equal to node 1", ("str", "b"), 1, 3), ("new value", ("str", "z"), 3, 4), ("value equal to nodes 1 and 2 (first wins)", ("str", "dup"), 1, 3)):
+        vals = [("str", "a"), ("str", "b"), ("str", "c")] if val != ("str", "dup") else [("str", "a"), ("str", "dup"), ("str", "dup")]
+        arena = MutList([mknode(i, v, ("None",)) for i, v in enumerate(vals)])
+        selfo = ("enum", "ArenaTree", {"arena": arena})
+        it = Interp(env={"self": selfo, "val": val}, on_call=on_call)
+        try:
+            try:
+                res = it.block(nd[0].node["body"])
+            except Return as r:
+                res = r.v
+        except Unknown as e:
+            ctx.incomplete_msg(rid, "node, %s: %s" % (label, e))
+            continue
+        ctx.site(rid, "node|" + label, PAR, nd[0].line, {"index": res, "arena_len": len(arena)})
+        ok = res == want_idx and len(arena) == want_len and (want_len == 3 or (arena[3][2]["idx"] == 3 and arena[3][2]["val"] == val))
+        if not ok:
+            ctx.violation(rid, "node|" + label.split(" ")[0], PAR, nd[0].line, "ArenaTree::node with a %s returns %r with %d nodes in the arena; expected index %d and %d nodes"
+                          % (label, res, len(arena), want_idx, want_len))
 
 
 def r_coverage(ctx):
